@@ -188,12 +188,8 @@ func (p *Parser) parseServiceItemStmt() *ast.ServiceItemStmt {
 	}
 
 	// statement @handler
-	if !p.advanceIfPeekTokenIs(token.AT_HANDLER, token.RBRACE) {
+	if !p.advanceIfPeekTokenIs(token.AT_HANDLER) {
 		return nil
-	}
-
-	if p.peekTokenIs(token.RBRACE) {
-		return stmt
 	}
 
 	atHandlerStmt := p.parseAtHandlerStmt()
